@@ -1,6 +1,8 @@
 """C09 — MMD is the unbiased estimator for any chunking; streaming MMD = batch on window."""
 from __future__ import annotations
 
+import math
+
 from functools import partial
 
 from common import Outcome, close, f2h, h2f, np, rng_for, run_driver
@@ -78,6 +80,22 @@ def run(out: Outcome) -> None:
             lines.append(f"mmd {dim} {n} {m} {'-' if cs is None else cs} {f2h(sigma)} " + " ".join(f2h(v) for v in np.concatenate([X.reshape(-1), Y.reshape(-1)])))
             expect.append((got, rep))
             out.case({"n": n, "m": m, "dim": dim, "cs": cs, "sigma": sigma, "offset": off, "scale": sc, "h": hash(X.tobytes() + Y.tobytes()) & 0xFFFFFF})
+    # array dtype: integer-valued samples stored as int64 / int32 / int16 / uint8 / float32 arrays give the estimator of those VALUES
+    # (differences of unsigned or narrow integers must not wrap)
+    for dt in (np.int64, np.int32, np.int16, np.uint8, np.float32):
+        n, m, dim = rng.randint(3, 8), rng.randint(3, 8), rng.choice([1, 2])
+        sigma = rng.choice([1.0, 2.5, 40.0])
+        hi = 200 if dt is np.uint8 else 3000
+        Xi = np.array([[rng.randint(0, hi) for _ in range(dim)] for _ in range(n)])
+        Yi = np.array([[rng.randint(0, hi) for _ in range(dim)] for _ in range(m)])
+        ref = unbiased(Xi.astype(float), Yi.astype(float), sigma)
+        det = MMD(kernel=partial(rbf_kernel, sigma=sigma), chunk_size=rng.choice([None, 2]))
+        det.fit(X=Xi.astype(dt))
+        got = float(det.compare(X=Yi.astype(dt))[0].distance)
+        rep = {"n": n, "m": m, "dim": dim, "sigma": sigma, "dtype": np.dtype(dt).name, "X": Xi.tolist(), "Y": Yi.tolist()}
+        if math.isnan(got) or abs(got - ref) > (1e-5 if dt is np.float32 else 1e-9):
+            out.violation(f"MMD on {np.dtype(dt).name} arrays returns {got!r}, the unbiased estimator of these values is {ref!r}", rep)
+        out.case({"dtype": np.dtype(dt).name, "n": n, "m": m, "dim": dim, "h": hash(Xi.tobytes() + Yi.tobytes()) & 0xFFFFFF})
     # streaming
     for _ in range(30 if thorough else 10):
         w, dim = rng.randint(2, 6), rng.choice([1, 2])
